@@ -2,8 +2,8 @@ package gen
 
 import (
 	"fmt"
-	"os"
 	"math/rand"
+	"os"
 	"testing"
 )
 
